@@ -3,11 +3,13 @@ objects of /repo's working tree and project what is observable (bytes, exception
 No interpretation of the bytes happens here (DESIGN 2.3)."""
 import io
 import os
+import warnings
 import random
 import signal
 import sys
 
 sys.path.insert(0, os.environ.get('CARDUTIL_REPO', '/repo'))
+warnings.filterwarnings('ignore')
 
 from cardutil import mciipm, CardutilError  # noqa: E402
 import logging  # noqa: E402
